@@ -721,7 +721,8 @@ def Sum(xs):
 def select(lst, idx):
     """lst[idx] with a possibly symbolic idx (If-chain; out of range -> last element)."""
     if not isinstance(idx, Sym):
-        return lst[idx]
+        idx = builtins.int(idx)
+        return lst[idx] if 0 <= idx < len(lst) else lst[-1]
     acc = lst[-1]
     for q in range(len(lst) - 2, -1, -1):
         acc = ite(idx == q, lst[q], acc)
